@@ -8,6 +8,7 @@ import (
 	"fmt"
 	"go/ast"
 	"go/constant"
+	"go/parser"
 	"go/token"
 	"go/types"
 	"os"
@@ -36,6 +37,10 @@ type Prog struct {
 	SSA    *ssa.Program
 	cg     *callgraph.Graph
 	nfuncs int
+	// Renamed lists declarations that were re-identified under a new name (see anchors.go);
+	// MissingDecls lists baseline declarations that exist under no name.
+	Renamed      []string
+	MissingDecls []string
 }
 
 // RepoDir returns the directory of the repository under analysis.
@@ -46,8 +51,42 @@ func RepoDir() string {
 	return "/repo"
 }
 
-// Load loads ./... of dir for linux/goarch.
+// Load loads ./... of dir for linux/goarch. Declarations renamed since the
+// baseline are re-identified and read under their baseline names (anchors.go).
 func Load(dir, goarch string) (*Prog, error) {
+	p, pkgs, err := loadOnce(dir, goarch, nil)
+	if err != nil {
+		return nil, err
+	}
+	bl, err := loadBaseline()
+	if err != nil {
+		return nil, fmt.Errorf("anchors_baseline.json: %w", err)
+	}
+	if base := bl.Arch[goarch]; len(base) > 0 {
+		alias, log, missing := resolveRenames(p.Pkgs, base)
+		if len(alias) > 0 {
+			plan := renamePlan(p.Fset, p.Pkgs, alias)
+			p2, pkgs2, err2 := loadOnce(dir, goarch, plan)
+			if err2 != nil {
+				// reading the tree under baseline names does not type-check (a name clash): keep the plain load
+				p.MissingDecls = append(missing, "renaming back failed: "+err2.Error())
+			} else {
+				p, pkgs = p2, pkgs2
+				p.Renamed = log
+				_, _, missing2 := resolveRenames(p.Pkgs, base)
+				p.MissingDecls = missing2
+			}
+		} else {
+			p.MissingDecls = missing
+		}
+	}
+	prog, _ := ssautil.AllPackages(pkgs, ssa.InstantiateGenerics)
+	prog.Build()
+	p.SSA = prog
+	return p, nil
+}
+
+func loadOnce(dir, goarch string, plan map[string]map[int]string) (*Prog, []*packages.Package, error) {
 	env := append(os.Environ(),
 		"GOOS=linux", "GOARCH="+goarch, "CGO_ENABLED=0",
 		"GOFLAGS=-mod=mod", "GOPROXY=off", "GOSUMDB=off", "GOTOOLCHAIN=local", "GOWORK=off")
@@ -57,9 +96,25 @@ func Load(dir, goarch string) (*Prog, error) {
 		Env:   env,
 		Tests: false,
 	}
+	if plan != nil {
+		cfg.ParseFile = func(fset *token.FileSet, filename string, src []byte) (*ast.File, error) {
+			f, err := parser.ParseFile(fset, filename, src, parser.AllErrors|parser.ParseComments)
+			if fp := plan[filename]; fp != nil && f != nil {
+				ast.Inspect(f, func(n ast.Node) bool {
+					if id, ok := n.(*ast.Ident); ok {
+						if nn, ok := fp[fset.Position(id.Pos()).Offset]; ok {
+							id.Name = nn
+						}
+					}
+					return true
+				})
+			}
+			return f, err
+		}
+	}
 	pkgs, err := packages.Load(cfg, "./...")
 	if err != nil {
-		return nil, fmt.Errorf("packages.Load: %w", err)
+		return nil, nil, fmt.Errorf("packages.Load: %w", err)
 	}
 	p := &Prog{Dir: dir, Arch: goarch, All: map[string]*packages.Package{}}
 	var errs []string
@@ -73,7 +128,7 @@ func Load(dir, goarch string) (*Prog, error) {
 	})
 	if len(errs) > 0 {
 		sort.Strings(errs)
-		return nil, fmt.Errorf("load/type errors in module packages: %s", strings.Join(errs, "; "))
+		return nil, nil, fmt.Errorf("load/type errors in module packages: %s", strings.Join(errs, "; "))
 	}
 	for _, pk := range pkgs {
 		if strings.HasPrefix(pk.PkgPath, repoModule) {
@@ -83,12 +138,9 @@ func Load(dir, goarch string) (*Prog, error) {
 	}
 	sort.Slice(p.Pkgs, func(i, j int) bool { return p.Pkgs[i].PkgPath < p.Pkgs[j].PkgPath })
 	if len(p.Pkgs) < 10 {
-		return nil, fmt.Errorf("only %d module packages loaded for GOARCH=%s (expected >= 10)", len(p.Pkgs), goarch)
+		return nil, nil, fmt.Errorf("only %d module packages loaded for GOARCH=%s (expected >= 10)", len(p.Pkgs), goarch)
 	}
-	prog, _ := ssautil.AllPackages(pkgs, ssa.InstantiateGenerics)
-	prog.Build()
-	p.SSA = prog
-	return p, nil
+	return p, pkgs, nil
 }
 
 // Pkg returns the module package whose import path is repoModule+"/"+rel
